@@ -17,7 +17,7 @@ use uom::si::length::meter;
 pub fn def() -> PropDef {
     PropDef {
         id: "C19",
-        rule: "inputs: whole runs of 1..=4 MIDAS files written by the harness (16/32/32a bank headers, both endiannesses, .mid and .mid.lz4, ODB dumps of varying length), each with 0..=60 events: main events (TRG-only, small hit-pattern events, a few forward-model events so that real vertices appear, and undecodable ones: truncated TRG, unknown bank, duplicate TRG, missing TRG, corrupted wire bank - at the start, middle and end), chronobox, sequencer and unknown event ids interleaved; arbitrary serial numbers; TRG timestamps stepping by up to 2^32 - 1 so that the cumulative time crosses 2^32 several times; consistent file timestamps; files given in a generated argument order; RAYON_NUM_THREADS in {1, 2, 5, 16}; refusal cases: a file of another run, duplicate initial timestamps, unknown extension; oracle (the real release binaries, built from the working tree): exit status 0 and one row per main event in initial-timestamp order of the files with the event's serial number; decodability and every column from the library (MainEvent::try_from_banks(..).vertex() / TrgPacket accessors), floats compared by bits after parsing; undecodable rows empty; consecutive decodable rows differ in trg_time by wrapping_sub(ts_j, ts_i) / 62.5 MHz (integer clock counts, error < 1e-3); CSV body byte-identical across thread counts and argument orders; refusal cases exit non-zero without a CSV; non-trivial = >= 2 files given out of order, >= 1 wrap of the 32-bit timestamp, >= 1 undecodable event that is not last, or a refusal case; distinct by run hash",
+        rule: "inputs: whole runs of 1..=4 MIDAS files written by the harness (16/32/32a bank headers, both endiannesses, .mid and .mid.lz4, ODB dumps of varying length), each with 0..=60 events: main events (TRG-only, small hit-pattern events, a few forward-model events so that real vertices appear, and undecodable ones: truncated TRG, unknown bank, duplicate TRG, missing TRG, corrupted wire bank - at the start, middle and end), chronobox, sequencer and unknown event ids interleaved; arbitrary serial numbers; TRG timestamps stepping by up to 2^32 - 1 so that the cumulative time crosses 2^32 several times; consistent file timestamps; files given in a generated argument order; RAYON_NUM_THREADS in {1, 2, 5, 16}; refusal cases: a file of another run (any one of the files, or an extra later one), duplicate initial timestamps, unknown extension; oracle (the real release binaries, built from the working tree): exit status 0 and one row per main event in initial-timestamp order of the files with the event's serial number; decodability and every column from the library (MainEvent::try_from_banks(..).vertex() / TrgPacket accessors), floats compared by bits after parsing; undecodable rows empty; consecutive decodable rows differ in trg_time by wrapping_sub(ts_j, ts_i) / 62.5 MHz (integer clock counts, error < 1e-3); CSV body byte-identical across thread counts and argument orders; refusal cases exit non-zero without a CSV; non-trivial = >= 2 files given out of order, >= 1 wrap of the 32-bit timestamp, >= 1 undecodable event that is not last, or a refusal case; distinct by run hash",
         assumptions: &[
             "thread interleavings are not controlled; only thread counts are varied",
             "bank names are 4 ASCII alphanumerics (anything else is rejected by midasio before the programs see it)",
@@ -216,6 +216,14 @@ fn oracle(c: &RunCase, ev: &mut Ev) -> Outcome {
         if let Some(r) = &c.refusal {
             let mut args = args.clone();
             match r {
+                Refusal::OtherRun(d) if n >= 2 && d % 3 != 0 => {
+                    // one of the files of the run - first, last or in the middle in time,
+                    // anywhere on the command line - carries another run number
+                    let k = (*d as usize / 3) % n;
+                    let mut f = b.files[k].clone();
+                    f.run = c.run.wrapping_sub(1 + (*d as u32 >> 8));
+                    f.write(&dir, &format!("run{:05}sub{k:03}", c.run % 100_000)).map_err(|e| Fail::new("harness-io", e.to_string()))?;
+                }
                 Refusal::OtherRun(d) => {
                     let mut f = b.files[n - 1].clone();
                     f.run = c.run.wrapping_sub(1 + *d as u32);
